@@ -181,6 +181,13 @@ Qed.
 
 (** * small facts about the primitives *)
 
+(* equalities / memberships of unions of opaque sets (never unfolds [lib_live], [owned], ...) *)
+Ltac usets :=
+  try (apply set_eq; intros ?);
+  rewrite ?elem_of_union, ?elem_of_list_to_set, ?elem_of_app, ?elem_of_cons, ?elem_of_nil, ?elem_of_singleton,
+          ?elem_of_empty;
+  tauto.
+
 Lemma run_alloc_node h : alloc_node nf h = Ret (Some (h_next h), alloc_typed h 0).
 Proof. reflexivity. Qed.
 Lemma run_alloc_bytes h c : alloc_bytes nf c h = Ret (Some (h_next h), alloc_str h c).
@@ -218,12 +225,12 @@ Proof.
   - exists (alloc_str h (s ++ [0%Z])). split; [apply run_alloc_bytes|]. split_and!; try done.
     + intros F. apply WF_alloc_str.
     + intros b (G1 & G2 & G3). split_and!; cbn.
-      * set_solver.
+      * apply elem_of_union; by right.
       * rewrite lookup_insert_ne; [done|]. intros <-. lia.
       * lia.
-    + intros b [= <-]. split_and!; cbn; [set_solver|by rewrite lookup_insert|lia].
-    + unfold alloc_str. rewrite lib_live_alloc. set_solver.
-  - exists h. split_and!; try done. set_solver.
+    + intros b [= <-]. split_and!; cbn; [apply elem_of_union; left; by apply elem_of_singleton|by rewrite lookup_insert|lia].
+    + unfold alloc_str. rewrite lib_live_alloc. generalize (lib_live h). intros X. usets.
+  - exists h. split_and!; try done. cbn. generalize (lib_live h). intros X. usets.
 Qed.
 
 (** * forest bookkeeping for a fresh root *)
@@ -285,7 +292,7 @@ Lemma link_children_sim cs : Forall mat_ok cs -> forallb plain cs = true ->
     lib_live h' = lib_live h ∪ list_to_set (owned (map_acc forest_of cs (h_next h))).
 Proof.
   induction 1 as [|c r Hc _ IH]; intros Hpl done h F p d W Hp Href.
-  - exists h. cbn [link_children map_acc nblocks_list fold_right]. rewrite app_nil_r. split_and!; try done. set_solver.
+  - exists h. cbn [link_children map_acc nblocks_list fold_right]. rewrite app_nil_r. split_and!; try done. change (owned []) with (@nil positive). generalize (lib_live h). intros X. usets.
   - cbn [forallb] in Hpl. apply andb_true_iff in Hpl as [Hpc Hpr].
     set (F1 := F ++ [T p d done]) in *. set (x := h_next h).
     destruct (Hc h F1 Hpc W) as (ha & Hrun & Wa & Hna & Hla). fold x in Hrun, Wa, Hna, Hla.
@@ -315,7 +322,8 @@ Proof.
     + rewrite Hn'. cbn [nblocks_list fold_right]. fold (nblocks_list r x).
       rewrite (Pos.add_comm x), nblocks_list_add. done.
     + rewrite Hl'. cbn [map_acc]. fold x. fold tc. rewrite (owned_cons tc).
-      change (lib_live hb) with (lib_live ha). rewrite Hla. rewrite list_to_set_app_L. set_solver.
+      change (lib_live hb) with (lib_live ha). rewrite Hla. rewrite list_to_set_app_L.
+      generalize (lib_live h), (owned [tc]), (owned (map_acc forest_of r (x + nblocks c)%positive)). intros X Y Z. usets.
 Qed.
 
 Lemma is_ref_false ty a1 a2 a3 a4 a5 : (Z.land ty c_cJSON_IsReference =? 0)%Z = true -> is_ref (mkRD ty a1 a2 a3 a4 a5) = false.
@@ -403,7 +411,8 @@ Proof.
     + rewrite N5, nblocks_unfold. rewrite <- nblocks_list_add. f_equal.
       unfold n3, n2, n1. destruct vs, key; cbn [opt_cnt]; lia.
     + rewrite L5. change (lib_live h4) with (lib_live h3). rewrite LL3, LL2, Hl1.
-      rewrite owned_singleton, Hstrs. rewrite list_to_set_cons, !list_to_set_app_L. set_solver.
+      rewrite owned_singleton, Hstrs. rewrite list_to_set_cons, !list_to_set_app_L.
+      generalize (lib_live h), (owned (map_acc forest_of ch n3)). intros X Y. usets.
 Qed.
 
 (** * the number of blocks the image owns is the parser's ledger count *)
